@@ -17,10 +17,10 @@ import (
 
 func TestC09Histories(t *testing.T) {
 	rec := evid.New(t, "C09", "state-machine histories of 20..700 operations on a message writer (streamwriter.Writer or the deprecated frame.Writer.WriteMessage): decoded messages, raw messages with an in-dialect id, and refused writes (nil, id outside the dialect, id>255 on v1) interleaved; the output is parsed by the reference: i-th emitted frame has seq i mod 256, configured ids, version marker, flags, reference checksum, v1 payload = base size; refused writes emit nothing and consume no sequence number; non-trivial = more than 256 emitted frames with >=2 message kinds, or a refused write between two accepted ones; distinct by hash of the emitted stream")
-	rec.Require("wraps-256", "refused-between-accepted", "v1", "v2", "signed", "streamwriter", "framewriter", "raw-in-dialect")
+	rec.Require("wraps-256", "refused-between-accepted", "v1", "v2", "signed", "streamwriter", "framewriter", "raw-in-dialect", "id>=65536")
 	dpool := pool(t)
 	evid.Check(t, rec, evid.N(2500, 8000), func(t *rapid.T) {
-		di := dpool[rapid.SampledFrom([]int{0, 0, 1}).Draw(t, "dialect")]
+		di := dpool[rapid.SampledFrom([]int{0, 0, 1, 3}).Draw(t, "dialect")]
 		v2 := rapid.Bool().Draw(t, "v2")
 		sys := byte(rapid.IntRange(1, 255).Draw(t, "sys"))
 		comp := gen.Byte().Draw(t, "comp")
@@ -226,6 +226,12 @@ func TestC09Histories(t *testing.T) {
 		}
 		if rawUsed {
 			cls = append(cls, "raw-in-dialect")
+		}
+		for id := range kinds {
+			if id >= 65536 {
+				cls = append(cls, "id>=65536")
+				break
+			}
 		}
 		rec.Case(nt, evid.Hash(w.all()), cls...)
 		if nt && rec.WantSample("history") {
